@@ -150,7 +150,8 @@ def main(argv=None):
                 crashes.append((r["contract"], f"vacuous: cover `{cv['name']}` of case {r['case']} is unsatisfiable"))
         exits_ok = [cv for cv in r["covers"] if (cv["name"].startswith("exit") or cv["name"] == "truncation point")
                     and cv["status"] in ("sat", "unknown")]
-        if r["contract"].startswith("lemma:") is False and not r.get("undecided") and not exits_ok:
+        has_failed = any(ob["status"] == "sat" for ob in r["obligations"])     # a failed obligation legitimately ends its path
+        if r["contract"].startswith("lemma:") is False and not r.get("undecided") and not exits_ok and not has_failed:
             crashes.append((r["contract"], f"vacuous: no reachable exit in case {r['case']}"))
         for ob in r["obligations"]:
             n_obl += 1
